@@ -77,6 +77,12 @@ def r_dup_sanitize(ck: Checker) -> None:
     if not loops:
         from ..astutil import comp_as_loop
         loops = [lp_ for lp_ in (comp_as_loop(s) for s in fn.body) if lp_ is not None]
+    props = [c for c in ast.walk(f.raw or fn) if isinstance(c, ast.Call) and isinstance(c.func, ast.Attribute) and c.func.attr in ("get_properties", "get_property_fields", "to_properties_dict")]
+    if props:
+        ck.violation("R-DUP-SANITIZE", f, props[0], "duplicate replaces child fields only: every other init field of the copy is the very object the original holds",
+                     positive=True, construct=f"duplicate: {norm(props[0])[:50]} — property values are passed through on their way into the copy (a copied / converted value is another object, "
+                     "and for a class without value equality not even an equal one)")
+        return
     keyed = _node_keyed_mapping(fn)
     if keyed:
         ck.violation("R-DUP-SANITIZE", f, fn, "duplicate pairs every original node object with its own copy (by position or object identity)",
@@ -175,6 +181,10 @@ def r_replace_form(ck: Checker) -> None:
         if rebinds or edits:
             conv = [st for st in rebinds if isinstance(getattr(st, "value", None), ast.DictComp)
                     and any(isinstance(c, ast.Call) and dotted(c.func) in ("tuple", "list", "set", "frozenset", "str", "dict") for c in ast.walk(st.value.value))]
+            # ... or *called*: `{k: v(...) ...}` stores what the given value returns, not the given value (a callable is a legitimate value)
+            conv += [st for st in rebinds if isinstance(getattr(st, "value", None), ast.DictComp) and isinstance(st.value.generators[0].target, ast.Tuple)
+                     and len(st.value.generators[0].target.elts) == 2 and isinstance(st.value.generators[0].target.elts[1], ast.Name)
+                     and any(isinstance(c, ast.Call) and isinstance(c.func, ast.Name) and c.func.id == st.value.generators[0].target.elts[1].id for c in ast.walk(st.value.value))]
             if conv:
                 ck.violation("R-REPLACE-FORM", f, conv[0], what_k, positive=True, construct=f"replace: the given values are converted before they are stored ({norm(conv[0].value.value)[:60]})")
             else:
